@@ -632,6 +632,7 @@ def main():
     methods_out = []      # (qualname, size, [param widths], mem expr or None, (ret width, expr) or None)
     untranslatable = []
     forwards = []
+    sig_only = []
     for mg, (cls, name, node) in sorted(W.methods.items(), key=lambda kv: (kv[1][0], kv[1][1], kv[0])):
         if cls not in layout:
             fw = None
@@ -672,11 +673,37 @@ def main():
             methods_out.append((q, s.size, pw, s.mem if s.wrote else None, ret, mg))
         except Untranslatable as e:
             untranslatable.append((q, str(e)))
+            sig_only_entry(W, tu, cls, layout, node, params, q, mg, sig_only, recs)
         except (KeyError, IndexError, TypeError) as e:
             untranslatable.append((q, 'translator: %s %s' % (type(e).__name__, e)))
+            sig_only_entry(W, tu, cls, layout, node, params, q, mg, sig_only, recs)
 
     # typedef'd return types (uint8_t etc.) are resolved through clang's desugared type of the declaration when available
-    write_outputs(out, W, layout, recs, methods_out, untranslatable, forwards)
+    write_outputs(out, W, layout, recs, methods_out, untranslatable, forwards, sig_only)
+
+def sig_only_entry(W, tu, cls, layout, node, params, q, mg, sig_only, recs):
+    """a method whose body cannot be translated still gets a harness dispatch entry (from its signature alone), so that the layout
+    spec can be run against the compiled code when searching for a failing input"""
+    try:
+        # only plain byte images (every data member a scalar / enumeration): the harness runs the accessor on raw memory
+        for (pname, cpath, ti, c) in recs.get(cls, []):
+            dq = (c['type'].get('desugaredQualType') or c['type']['qualType'])
+            if ti is None and not dq.startswith('enum ') and not W_enum_like(W, dq) and '::(anonymous' not in dq and 'union' not in dq:
+                return
+        s = Sym(W, tu, cls, layout)
+        pw = [s.width_of(p)[0] for p in params]
+        rt = node['type']['qualType'].split('(')[0].strip()
+        ret = None
+        if rt != 'void':
+            rti = type_info({'qualType': rt})
+            rw = rti[0] if rti else (s.enum_width(rt) or None)
+            if rw is None:
+                return
+            ret = (rw, None)
+        const = node['type']['qualType'].rstrip().endswith('const')
+        sig_only.append((q, s.size, pw, None if const else 'W', ret, mg))
+    except Exception:
+        return
 
 def coq_str(s):
     return '"' + s.replace('"', '""') + '"'
@@ -707,6 +734,9 @@ def default_inits(W, layout, recs):
                     dv = v & ((1 << (8 * size)) - 1)
             rows.append((pname, off, size, dv))
             dq = (c['type'].get('desugaredQualType') or c['type']['qualType'])
+            # members through which two objects of the class can share state after a copy: shared ownership, raw pointers, references
+            if re.search(r'shared_ptr|weak_ptr|reference_wrapper|\*|&', c['type']['qualType'] + ' ' + dq):
+                ALIASING.append((q, pname, c['type']['qualType']))
             scalar = ti is not None or dq.endswith('*') or dq.startswith('enum ') or W_enum_like(W, dq)
             if scalar and not c.get('hasInClassInitializer'):
                 UNINIT.append((q, pname))
@@ -714,11 +744,12 @@ def default_inits(W, layout, recs):
     return res
 
 UNINIT = []
+ALIASING = []
 def W_enum_like(W, dq):
     last = dq.replace('const ', '').split('::')[-1]
     return any(e.split('::')[-1] == last for e in W.enum_widths)
 
-def write_outputs(out, W, layout, recs, methods_out, untranslatable, forwards):
+def write_outputs(out, W, layout, recs, methods_out, untranslatable, forwards, sig_only=()):
     L = []
     L.append('(* GENERATED by translator/cxx2coq.py from the current sources of /repo — do not edit. *)')
     L.append('From Coq Require Import ZArith List String.\nRequire Import CMP.Bv.\nImport ListNotations.\nLocal Open Scope Z_scope.\nLocal Open Scope string_scope.\n')
@@ -752,6 +783,10 @@ def write_outputs(out, W, layout, recs, methods_out, untranslatable, forwards):
     G.append('Definition gen_uninit_members : list (string * string) := [')
     G.append(';\n'.join('  (%s, %s)' % (coq_str(a), coq_str(b)) for a, b in sorted(set(UNINIT))))
     G.append('].\n')
+    G.append('(* data members of shared-ownership / raw-pointer / reference type: (class, member, declared type) *)')
+    G.append('Definition gen_aliasing_members : list (string * string * string) := [')
+    G.append(';\n'.join('  (%s, %s, %s)' % (coq_str(a), coq_str(b), coq_str(c)) for a, b, c in sorted(set(ALIASING))))
+    G.append('].\n')
     G.append('Definition gen_enums : list (string * list (string * Z)) := [')
     G.append(';\n'.join('  (%s, [%s])' % (coq_str(q), '; '.join('(%s, %d)' % (coq_str(n), v) for n, v in vals)) for q, vals in sorted(W.enums.items())))
     G.append('].')
@@ -778,7 +813,8 @@ def write_outputs(out, W, layout, recs, methods_out, untranslatable, forwards):
     D = ['// GENERATED by translator/cxx2coq.py — runs a compiled accessor on a memory image (harness op ACC)',
          'static bool accDispatch(int cls, int method, Bytes& mem, unsigned long long arg, unsigned long long arg2, unsigned long long& ret, int& hasRet)', '{', '    (void) arg; (void) arg2; (void) ret; (void) hasRet;', '    switch (cls * 1000 + method)', '    {']
     mid = {}
-    for (q, size, pw, memx, ret, mg) in methods_out:
+    modelled = set(m[0] + m[5] for m in methods_out)
+    for (q, size, pw, memx, ret, mg) in list(methods_out) + list(sig_only):
         cls, name = q.rsplit('::', 1)
         if len(pw) > 2:
             continue
@@ -791,7 +827,7 @@ def write_outputs(out, W, layout, recs, methods_out, untranslatable, forwards):
         k = len(m) + 1
         m[name + mg] = k
         is_packed = cls in layout
-        idx['methods'].append(dict(cls=cls_ids[cls], id=k, name=q, params=pw, ret=ret[0] if ret else 0, writes=memx is not None, size=size))
+        idx['methods'].append(dict(cls=cls_ids[cls], id=k, name=q, params=pw, ret=ret[0] if ret else 0, writes=memx is not None, size=size, model=(q + mg) in modelled))
         call_arg = ', '.join('Conv{%s}' % v for p, v in zip(params, ['arg', 'arg2']))
         D.append('        case %d:  // %s' % (cls_ids[cls] * 1000 + k, q))
         D.append('        {')
